@@ -102,19 +102,25 @@ func (e *Engine) VerifyFunction(fn *ssa.Function, fc *FuncContract) *FuncReport 
 	s.frames = []*Frame{fr}
 	for _, p := range fn.Params {
 		v := Var("p$"+p.Name(), x.sortOf(p.Type()))
-		s.assume(e.typeInv(v, p.Type(), x.mode, s.alloc))
+		x.assumeTyped(s, v, p.Type())
 		val := tv(v, p.Type())
 		fr.vals[p] = val
 		fr.vars[p.Name()] = val
 		x.params[p.Name()] = val
 		x.paramOrder = append(x.paramOrder, p.Name())
+		// pointer receivers are non-nil (checked at every static call site as pre:...#recv-nonnil)
+		if recv := fn.Signature.Recv(); recv != nil && p == fn.Params[0] {
+			if _, isPtr := recv.Type().Underlying().(*types.Pointer); isPtr && (fc == nil || fc.Opts["nilrecv"] == "") {
+				s.assume(Not(Eq(v, IntLit(0))))
+			}
+		}
 		rep.ParamSyms[p.Name()] = v.Op
 		rep.ParamOrder = append(rep.ParamOrder, p.Name())
 	}
 	for _, fv := range fn.FreeVars {
 		// closures verified standalone: free variables are arbitrary pointers to cells
 		v := Var("fv$"+fv.Name(), x.sortOf(fv.Type()))
-		s.assume(e.typeInv(v, fv.Type(), x.mode, s.alloc))
+		x.assumeTyped(s, v, fv.Type())
 		s.assume(ILt(IntLit(0), v))
 		fr.vals[fv] = tv(v, fv.Type())
 		if p, ok := fv.Type().(*types.Pointer); ok {
@@ -194,6 +200,7 @@ func (e *Engine) VerifyFunction(fn *ssa.Function, fc *FuncContract) *FuncReport 
 			}
 			x.emit(s2, "ensures", "post#"+en.Name, t, en.Text)
 		}
+		x.checkFreshInvs(s2)
 		for id, m := range s2.locks {
 			x.emit(s2, "lock", "lock-held-at-return:"+id, TFalse, "lock "+id+" still held ("+m+") at return")
 		}
